@@ -95,6 +95,7 @@ class Executor(HeapMixin, ExprMixin, CallMixin, ContractMixin, StmtMixin):
         self.assumptions_noted, self.dropped = set(), set()
         self.axioms = []
         self.recdefs = {}
+        self._mod_values = {}
         self.inline_depth = 0
         self.in_comprehension = 0
         self.comp_oracle_stack = []
@@ -212,7 +213,7 @@ class Executor(HeapMixin, ExprMixin, CallMixin, ContractMixin, StmtMixin):
             self.entry_env = dict(env)
             # preconditions
             for lab, txt in c.requires.items():
-                st.assume(self.spec_bool(txt, env, st))
+                st.assume(self.spec_assume(txt, env, st))
             for lab, txt in c.assumes.items():
                 st.assume(self.spec_bool(txt, env, st))
                 self.note_assumption(f"{c.qualname}: assumed `{txt}`")
@@ -301,19 +302,21 @@ class Executor(HeapMixin, ExprMixin, CallMixin, ContractMixin, StmtMixin):
                 return
         env2 = dict(env)
         env2["result"] = result
-        for wname, (gv, _wk) in c.witnesses.items():
-            if gv not in s.env:
-                self.oblige(s, "post", f"witness-{wname}", z3.BoolVal(False), None, note=f"ghost {gv} unbound on this path")
-                return
-            env2[wname] = s.env[gv]
+        for wname, (gv, wk) in c.witnesses.items():
+            if gv not in s.env or s.env[gv].bound is not None:
+                # the witness variable does not exist on this path: the clause must hold for every value
+                env2[wname] = self.fresh_value("anywit_" + wname, parse_kind(wk, self.reg.opaque), s)
+            else:
+                env2[wname] = s.env[gv]
         clauses = list(c.ensures.items())
         if c.overrides:
             ic = self.reg.contracts[c.overrides]
             clauses += [("iface." + k, v) for k, v in ic.ensures.items()]
         for lab, txt in clauses:
-            g = self.spec_bool(txt, env2, s, self.entry_state)
+            g = self.spec_goal(txt, env2, s, self.entry_state)
             self.oblige(s, "post", lab, g, None, note=txt)
         self.cover_states = getattr(self, "cover_states", [])
+        s.ghost["__result__"] = result
         self.cover_states.append(s)
 
     def check_raise(self, s: State, env, val):
